@@ -374,7 +374,9 @@ def prove_offset(src_root, ex: Explorer):
                      disconnect=Recorder('disconnect', is_async=True))
         it.hooks[f'{MGR}:TransferManager._download_file'] = lambda it2, f, a, k: A.SimpleAwaitable(it2.aio, 'download', lambda it3: dl.append((a[1], a[2], t.attrs['bytes_transfered'])))
         pconn = Stub('peer_connection', send_message=Recorder('send', is_async=True))
-        req = new(it, 'protocol.messages', 'PeerTransferRequest.Request', ticket=5, direction=1, filename='remote', filesize=10)
+        announced = ctx.fresh_int('announced_filesize')
+        ctx.assume(announced >= 0)
+        req = new(it, 'protocol.messages', 'PeerTransferRequest.Request', ticket=5, direction=1, filename='remote', filesize=Sym(announced, 'int'))
         # the future for the incoming file connection completes with it
         orig_future = it.natives['asyncio.Future']
 
@@ -389,6 +391,9 @@ def prove_offset(src_root, ex: Explorer):
             data, bt_at_send = sent_file[0]
             ok = rope_equal(ctx, N.to_rope(it, data), Rope([LE(8, off)]))[0] and ctx.valid(z3int(t.attrs['bytes_transfered']) == off) \
                 and dl[0][0] is t and dl[0][1] is fconn and ctx.valid(z3int(dl[0][2]) == off)
+        ctx.prove('C04._initialize_download.filesize', ctx.valid(z3int(unbox(t.attrs['filesize'])) == announced),
+                  'the size the COMPLETE guard compares with must be the size announced for THIS attempt (the remote file may have changed since an '
+                  'earlier, interrupted attempt)')
         ctx.prove('C04._initialize_download.offset', ok,
                   'the resume offset is the local file size: recorded as bytes_transfered, sent as a little-endian uint64 on the file connection, then the download starts')
     ex.run(send, 'initialize_download-offset')
@@ -448,8 +453,46 @@ def prove_retry(src_root, ex: Explorer):
     ex.run(path, 'retry-uploader')
 
 
+def prove_offset_survives(src_root, ex: Explorer):
+    """The negotiated resume offset is stored by set_offset() during the negotiation and the COMPLETE guard counts from it
+    (bytes_transfered == filesize).  The transition that starts the byte phase (InitializingState.start_transferring, real code, both
+    directions) must therefore leave bytes_transfered, the offset, the announced size and the local path untouched."""
+    def path(ctx: Ctx):
+        from contracts import C03
+        it = mk(src_root, ctx)
+        C03.install_env(it, ctx, [])
+        direction = ['DOWNLOAD', 'UPLOAD'][ctx.choose(2, 'direction')]
+        t, lock = C03.mk_transfer(it, ctx, direction, [])
+        off, size = ctx.fresh_int('offset'), ctx.fresh_int('filesize')
+        ctx.assume(z3.And(off >= 0, size >= 0))
+        lp = t.attrs['local_path']
+        t.attrs.update(bytes_transfered=Sym(off, 'int'), _offset=Sym(off, 'int'), filesize=Sym(size, 'int'))
+        S = cls(it, 'transfer.state', 'InitializingState')
+        s = it.call(S, [t], {})
+        t.attrs['state'] = s
+        lock.locked = True
+        res = run(it, it.class_attr(S, 'start_transferring'), s)
+        ctx.prove(f'C04.start_transferring.keeps-offset[{direction.lower()}]', res is True and ctx.valid(z3int(unbox(t.attrs['bytes_transfered'])) == off)
+                  and ctx.valid(z3int(unbox(t.attrs['_offset'])) == off) and ctx.valid(z3int(unbox(t.attrs['filesize'])) == size) and t.attrs['local_path'] is lp,
+                  'starting the byte phase forgets the negotiated offset (or the announced size / local path): the transfer counts from 0 and '
+                  'COMPLETE is reached with a file of the wrong size')
+    ex.run(path, 'offset-survives')
+
+
+def prove_break_is_error(src_root, ex: Explorer):
+    """_download_file distinguishes an orderly end of stream (receive_data returns None: the size guard decides COMPLETE / INCOMPLETE)
+    from a broken connection (ConnectionReadError: INCOMPLETE, retried).  That rests on the contract of DataConnection._read - a reset,
+    a time-out or any other reader failure is reported as ConnectionReadError after the connection was closed, only an empty read is
+    EOF - which is C02._read.contract[*]; it is discharged here as well because C04 depends on it."""
+    from contracts import C02
+    C02.prove_read(src_root, ex)
+    for ob in ex.obligations:
+        if ob.name.startswith('C02._read.contract'):
+            ob.name = 'C04.break-is-error' + ob.name[len('C02._read.contract'):]
+
+
 def items(src_root, tier):
-    return [('receive_file', None), ('send_file', None), ('download_file', None), ('upload_file', None), ('offset', None), ('retry', None)]
+    return [('break-is-error', None), ('offset-survives', None), ('receive_file', None), ('send_file', None), ('download_file', None), ('upload_file', None), ('offset', None), ('retry', None)]
 
 
 def run_item(src_root, item, tier):
@@ -458,7 +501,7 @@ def run_item(src_root, item, tier):
     kind, arg = item
     try:
         {'receive_file': prove_receive_file, 'send_file': prove_send_file, 'download_file': prove_download_file,
-         'upload_file': prove_upload_file, 'offset': prove_offset, 'retry': prove_retry}[kind](src_root, ex)
+         'upload_file': prove_upload_file, 'offset': prove_offset, 'retry': prove_retry, 'offset-survives': prove_offset_survives, 'break-is-error': prove_break_is_error}[kind](src_root, ex)
     except Unsupported as e:
         res.errors.append(f'{kind}: unsupported: {e}')
     collect(res, ex)
